@@ -441,3 +441,129 @@ pub proof fn lemma_history_u<K, E>(g: GS<K, E>, ops: Seq<Op<K, E>>, n: int)
         lemma_apply_u_inv(run_u(g, ops.take(n - 1)), ops[n - 1]);
     }
 }
+
+// ===== serde: rebuilding a graph from a document (C12, C13) =====
+pub open spec fn doc_keys<K, N>(nodes: Seq<(K, N)>) -> Set<K> {
+    nodes.map_values(|kv: (K, N)| kv.0).to_set()
+}
+// value of the first declaration of key k
+pub open spec fn first_val<K, N>(nodes: Seq<(K, N)>, k: K) -> N
+    decreases nodes.len()
+{
+    if nodes.len() == 0 { arbitrary() } else if nodes[0].0 == k { nodes[0].1 } else { first_val(nodes.drop_first(), k) }
+}
+// connect the listed edges in order; None as soon as an edge names a key that is not a member
+pub open spec fn g_fold<K, E>(g: GS<K, E>, edges: Seq<(K, K, E)>) -> Option<GS<K, E>>
+    decreases edges.len()
+{
+    if edges.len() == 0 { Some(g) } else {
+        match g_fold(g, edges.drop_last()) {
+            None => None,
+            Some(h) => {
+                let e = edges.last();
+                if h.dom().contains(e.0) && h.dom().contains(e.1) { Some(g_connect(h, e.0, e.1, e.2)) } else { None }
+            }
+        }
+    }
+}
+
+pub proof fn lemma_fold_inv<K, E>(g: GS<K, E>, edges: Seq<(K, K, E)>)
+    requires g.inv()
+    ensures g_fold(g, edges).is_some() ==> g_fold(g, edges).unwrap().inv() && g_fold(g, edges).unwrap().dom() == g.dom()
+    decreases edges.len()
+{
+    if edges.len() > 0 {
+        lemma_fold_inv(g, edges.drop_last());
+        match g_fold(g, edges.drop_last()) {
+            None => {}
+            Some(h) => {
+                let e = edges.last();
+                if h.dom().contains(e.0) && h.dom().contains(e.1) { lemma_connect_inv(h, e.0, e.1, e.2); }
+            }
+        }
+    }
+}
+
+pub proof fn lemma_fold_step<K, E>(g: GS<K, E>, edges: Seq<(K, K, E)>, i: int)
+    requires 0 <= i < edges.len()
+    ensures g_fold(g, edges.take(i + 1)) == match g_fold(g, edges.take(i)) {
+        None => None::<GS<K, E>>,
+        Some(h) => if h.dom().contains(edges[i].0) && h.dom().contains(edges[i].1) { Some(g_connect(h, edges[i].0, edges[i].1, edges[i].2)) } else { None },
+    }
+{
+    let p = edges.take(i + 1);
+    assert(p.drop_last() =~= edges.take(i));
+    assert(p.last() == edges[i]);
+}
+
+// once the fold has failed it stays failed
+pub proof fn lemma_fold_none<K, E>(g: GS<K, E>, edges: Seq<(K, K, E)>, i: int)
+    requires 0 <= i <= edges.len(), g_fold(g, edges.take(i)).is_none()
+    ensures g_fold(g, edges).is_none()
+    decreases edges.len() - i
+{
+    if i < edges.len() {
+        lemma_fold_step(g, edges, i);
+        lemma_fold_none(g, edges, i + 1);
+    } else {
+        assert(edges.take(i) =~= edges);
+    }
+}
+
+pub proof fn lemma_doc_keys_push<K, N>(p: Seq<(K, N)>, x: (K, N))
+    ensures doc_keys(p.push(x)) == doc_keys(p).insert(x.0)
+{
+    let a = p.push(x).map_values(|kv: (K, N)| kv.0);
+    let b = p.map_values(|kv: (K, N)| kv.0);
+    assert(a =~= b.push(x.0));
+    assert forall|k: K| a.to_set().contains(k) <==> b.to_set().insert(x.0).contains(k) by {
+        if a.to_set().contains(k) {
+            let i = choose|i: int| 0 <= i < a.len() && a[i] == k;
+            if i < b.len() { assert(b[i] == k); assert(b.contains(k)); }
+        }
+        if b.to_set().insert(x.0).contains(k) {
+            if k == x.0 { assert(a[b.len() as int] == k); assert(a.contains(k)); }
+            else {
+                assert(b.contains(k));
+                let i = choose|i: int| 0 <= i < b.len() && b[i] == k;
+                assert(a[i] == k); assert(a.contains(k));
+            }
+        }
+    }
+    assert(a.to_set() =~= b.to_set().insert(x.0));
+}
+
+pub proof fn lemma_doc_keys_empty<K, N>()
+    ensures doc_keys(Seq::<(K, N)>::empty()) == Set::<K>::empty()
+{
+    let a = Seq::<(K, N)>::empty().map_values(|kv: (K, N)| kv.0);
+    assert(a =~= Seq::<K>::empty());
+    assert(a.to_set() =~= Set::<K>::empty());
+}
+
+pub proof fn lemma_first_val_push<K, N>(p: Seq<(K, N)>, x: (K, N), k: K)
+    ensures first_val(p.push(x), k) == if doc_keys(p).contains(k) { first_val(p, k) } else if x.0 == k { x.1 } else { first_val(p.push(x), k) }
+    decreases p.len()
+{
+    if p.len() == 0 {
+        assert(p.push(x).drop_first() =~= Seq::<(K, N)>::empty());
+        lemma_doc_keys_empty::<K, N>();
+        assert(p =~= Seq::<(K, N)>::empty());
+    } else {
+        let t = p.drop_first();
+        assert(p.push(x).drop_first() =~= t.push(x));
+        lemma_first_val_push(t, x, k);
+        // doc_keys(p) = doc_keys(t) + p[0].0
+        assert(p =~= seq![p[0]] + t);
+        let a = p.map_values(|kv: (K, N)| kv.0);
+        let b = t.map_values(|kv: (K, N)| kv.0);
+        if p[0].0 != k {
+            assert(a.to_set().contains(k) <==> b.to_set().contains(k)) by {
+                if a.contains(k) { let i = choose|i: int| 0 <= i < a.len() && a[i] == k; assert(i > 0); assert(b[i - 1] == k); assert(b.contains(k)); }
+                if b.contains(k) { let i = choose|i: int| 0 <= i < b.len() && b[i] == k; assert(a[i + 1] == k); assert(a.contains(k)); }
+            }
+        } else {
+            assert(a[0] == k); assert(a.contains(k));
+        }
+    }
+}
